@@ -21,7 +21,7 @@ package main
 //
 // Result of repl:  M=<res>... T=<#tg> P=<receiver result> then per bucket `K=<key> m=<master rows> r=<replica rows>`
 // and `V=<bits>`: per bucket 1 iff the replica's answer equals the master's (variable-length buckets:
-// same payloads in the same order, timestamps within one tick = tf/2^32, at least 1 ns).
+// same payloads in the same order, timestamps within one tick = ceil(tf/2^32) ns).
 
 import (
 	"context"
@@ -148,7 +148,8 @@ func sameAnswer(m, r string, tfNs int64) bool {
 	if !ok1 || !ok2 || hm != hr || len(rm) != len(rr) {
 		return false
 	}
-	res := tfNs / 4294967296
+	// one tick = tf / 2^32 ns, rounded up (decode -> encode -> decode on the replica loses at most one tick)
+	res := (tfNs + 4294967295) / 4294967296
 	if res < 1 {
 		res = 1
 	}
@@ -435,7 +436,7 @@ func (g *Gen) replRows(b *replBucket, n int, sorted bool) string {
 
 func genC25(g *Gen) {
 	nowYear := time.Now().UTC().Year()
-	n := g.N(70, 1200)
+	n := g.N(70, 700)
 	for i := 0; i < n; i++ {
 		nb := 1 + g.Intn(3)
 		var bs []*replBucket
